@@ -47,6 +47,15 @@ def scenario_for(seed, index, tier):
             n = rng.choice([0, 1, 15, 16, 17, 100, 1000, 4000])
             items.append(['plugin', 'e:%d' % k, bytes(
                 rng.randrange(256) for _ in range(n)).hex()])
+        if rng.random() < 0.3:
+            # a stretch of the encrypted inbound stream that the application
+            # reads itself, mixing socket.recv() and file_object.read()
+            raw = bytes(rng.randrange(256) for _ in range(
+                rng.choice([1, 16, 17, 200, 1500])))
+            pos = rng.randint(0, len(items))
+            items[pos:pos] = [['plugin', 'mix:%d' % k,
+                               len(raw).to_bytes(4, 'big').hex()],
+                              ['raw', raw.hex()]]
         writes = []
         for i in range(rng.randint(0, 10)):
             n = rng.choice([0, 1, 15, 16, 17, 31, 32, 33, 500, 3000])
@@ -134,6 +143,12 @@ def wrapper_scenario(rng):
 
 
 def policy(rng, scenario):
+    if scenario.get('kind') == 'login' and any(
+            i[0] == 'raw' for it in scenario['items'] for i in it):
+        return Policy(p_sched=rng.choice([0, 0.01]),
+                      p_event=rng.choice([0, 0.1]), p_io=0.5,
+                      p_short=rng.choice([0.3, 0.8]),
+                      p_seg=rng.choice([0.1, 0.7]), name='c18-mixed')
     if scenario.get('kind') == 'dual':
         return Policy(p_sched=rng.choice([0.02, 0.1, 0.3, 0.5]),
                       p_event=rng.choice([0, 0.1, 0.3]), name='dual')
@@ -250,7 +265,7 @@ def execute(scenario, tape):
         return execute_dual(scenario, tape)
     w = World(scenario, tape)
     st = {'errs': [], 'logs': [[] for _ in range(scenario['logins'])],
-          'login_no': -1, 'in_play': False}
+          'login_no': -1, 'in_play': False, 'mixed': []}
     ids = ids_for(scenario['proto'])
 
     def build(w):
@@ -275,8 +290,24 @@ def execute(scenario, tape):
                 st['in_play'] = True
                 return
             if st['in_play'] and type(p).__name__ == 'PluginMessagePacket':
-                st['logs'][st['login_no']].append(
-                    (p.channel, bytes(p.data).hex()))
+                ln = st['login_no']
+                if p.channel.startswith('mix:'):
+                    # read the announced number of bytes ourselves, through
+                    # a tape-chosen mix of the two public read paths
+                    n = int.from_bytes(bytes(p.data), 'big')
+                    got = bytearray()
+                    while len(got) < n:
+                        k_ = 1 + w.sim.tape.choose(min(n - len(got), 64),
+                                                   'short')
+                        if w.sim.tape.choose(2, 'io'):
+                            chunk = conn.socket.recv(k_)
+                        else:
+                            chunk = conn.file_object.read(k_)
+                        if not chunk:
+                            break
+                        got += chunk
+                    st['mixed'].append((ln, bytes(got)))
+                st['logs'][ln].append((p.channel, bytes(p.data).hex()))
         conn.register_packet_listener(on_packet, Packet, early=True)
 
         def user():
@@ -306,13 +337,17 @@ def execute(scenario, tape):
                     return st['errs'] or (
                         app is not None and
                         app.play_frames >= len(scenario['writes'][k]) and
-                        len(st['logs'][k]) >= len(scenario['items'][k]))
+                        len(st['logs'][k]) >= sum(
+                            1 for x in scenario['items'][k]
+                            if x[0] == 'plugin'))
                 if handler and k == 0:
                     # the server closes once it has everything; the handler
                     # then reconnects by itself
                     st['first_settled'] = True
                     w.wait_until(lambda: st['errs'] or (
-                        len(st['logs'][0]) >= len(scenario['items'][0]) and
+                        len(st['logs'][0]) >= sum(
+                            1 for x in scenario['items'][0]
+                            if x[0] == 'plugin') and
                         st['login_no'] == 1), 60000000)
                     continue
                 w.wait_until(settled, 60000000)
@@ -329,8 +364,10 @@ def execute(scenario, tape):
                    'key_bits': [c['login'][[s[0] for s in c['login']].index(
                        'encrypt')][1]['bits']
                        for c in scenario['server']['conns']],
-                   'to_client_bytes': [sum(len(i[2]) // 2 for i in it)
+                   'to_client_bytes': [sum(len(i[-1]) // 2 for i in it)
                                        for it in scenario['items']],
+                   'mixed_recv_read': any(i[0] == 'raw' for it in
+                                          scenario['items'] for i in it),
                    'to_server_bytes': [sum(len(i[2]) // 2 for i in it)
                                        for it in scenario['writes']],
                    'end': w.sim.end_state}
@@ -423,7 +460,23 @@ def check_login(scenario, w, st, res, ids):
                 res.probes.get('ciphertext-byte-equality-checked', 0) + 1
         # server -> client: the client recovered the independently
         # encrypted stream
-        want_in = [(x[1], x[2]) for x in scenario['items'][k]]
+        want_in = [(x[1], x[2]) for x in scenario['items'][k]
+                   if x[0] == 'plugin']
+        raws = [bytes.fromhex(x[1]) for x in scenario['items'][k]
+                if x[0] == 'raw']
+        if raws:
+            ob()
+            got_raw = [b for ln, b in st['mixed'] if ln == k]
+            if got_raw != raws:
+                V.append(('C18/mixed-recv-read-stream-mismatch',
+                          {'n_got': [len(b) for b in got_raw],
+                           'n_want': [len(b) for b in raws],
+                           'first_diff': next(
+                               (i for i, (a, b) in enumerate(zip(
+                                   got_raw[0] if got_raw else b'', raws[0]))
+                                if a != b), None)}))
+                return
+            res.probes['mixed-recv-read-on-live-connection'] = 1
         ob(len(want_in) + 1)
         if st['logs'][k] != want_in:
             V.append(('C18/client-decrypted-stream-mismatch',
@@ -525,8 +578,14 @@ def shrink_scenario(sc):
     for key in ('items', 'writes'):
         for k in range(sc['logins']):
             for j in range(len(sc[key][k])):
+                it = sc[key][k][j]
+                if key == 'items' and it[0] == 'raw':
+                    continue
                 c = copy.deepcopy(sc)
-                del c[key][k][j]
+                if key == 'items' and it[1].startswith('mix:'):
+                    del c[key][k][j:j + 2]     # announcement + raw bytes
+                else:
+                    del c[key][k][j]
                 if key == 'items':
                     c['server']['conns'][k]['play'] = c['items'][k]
                 yield c
